@@ -51,7 +51,8 @@ class D(Driver):
         "cases: (a) picosvg documents produced by converting generated sources (groups kept for opacity, evenodd-origin shapes, "
         "gradients) whose root viewBox has a random origin (negative, zero, positive) and size so that shapes lie inside, outside, "
         "straddle every side and corner or touch the border; SVG.clip_to_viewbox (copy and in-place) and the command line route "
-        "(python -m picosvg.picosvg --clip_to_viewbox on the source, stdin/file in, stdout/--output_file out) are judged by the reference renderer: "
+        "(python -m picosvg.picosvg --clip_to_viewbox on the source, stdin/file in, stdout/--output_file out), also on objects with a history "
+        "(born with another viewBox, queried via view_box/tolerance/shapes/bounding_box/copying clip, viewBox then edited in place), are judged by the reference renderer: "
         "inside the viewBox the composited colour is unchanged, outside it is empty, samples uniform + biased to the viewBox border and "
         "corners, outside the band of shape edges and of the viewBox rectangle; (b) SVGShape.bounding_box / SVG.bounding_box on shapes with "
         "curves whose extrema lie strictly inside, arcs, degenerate shapes and multi-shape documents, judged against analytic extrema. "
@@ -72,7 +73,8 @@ class D(Driver):
     deciding_monitors = ("clip_to_viewbox", "bounding_box", "Rect.intersection", "Rect.union")
     nt_floor = {"quick": 200, "thorough": 4000}
     feature_floors = {"clipped.touches_border": 40, "clipped.fully_outside": 40, "clipped.group_partly_clipped_away": 30,
-                      "cli_clip.judged": 20, "cli_clip.judged_with_paint_outside": 10}
+                      "cli_clip.judged": 20, "cli_clip.judged_with_paint_outside": 10,
+                      "clip_after_viewbox_edit.no_shapes_loaded": 15, "clip_after_viewbox_edit.shapes_loaded": 15}
     time_budget = {"quick": 150, "thorough": 1200}
 
     def cases(self, tier, seed):
@@ -230,8 +232,37 @@ class D(Driver):
         res["evals"] += 1
         attach.count("clip_to_viewbox")
         inplace = rng.random() < 0.5
+        hist = rng.random() < 0.3
         try:
-            svg = self.SVG.fromstring(pico)
+            if hist:
+                # object history: the object is born with another viewBox, answers queries about it (view_box,
+                # tolerance, shapes, a copying clip), then has its viewBox edited in place to the target, then is
+                # clipped; the clipping must be to the viewBox the document has *now*
+                m = re.search(r'viewBox="([^"]*)"', pico)
+                vx, vy, vw, vh = vb
+                vb0 = f"{gd.fnum(round(vx + rng.choice((-1, 1)) * rng.uniform(0.3, 0.9) * vw, 1))} {gd.fnum(round(vy + rng.choice((-1, 0, 1)) * rng.uniform(0.3, 0.9) * vh, 1))} {gd.fnum(round(vw * rng.uniform(0.5, 1.6), 1))} {gd.fnum(round(vh * rng.uniform(0.5, 1.6), 1))}"
+                svg = self.SVG.fromstring(pico.replace(m.group(0), f'viewBox="{vb0}"', 1))
+                steps = []
+                for q in rng.sample(("view_box", "tolerance", "shapes", "copy_clip", "bounding_box"), rng.randint(1, 3)):
+                    steps.append(q)
+                    if q == "view_box":
+                        svg.view_box()
+                    elif q == "tolerance":
+                        svg.tolerance
+                    elif q == "shapes":
+                        svg.shapes()
+                    elif q == "bounding_box":
+                        svg.bounding_box()
+                    else:
+                        svg.clip_to_viewbox(inplace=False)
+                if rng.random() < 0.3:
+                    svg.remove_attributes(("viewBox",), inplace=True)
+                    steps.append("remove_viewBox")
+                svg.set_attributes((("viewBox", m.group(1)),), inplace=True)
+                bump(res["features"], "clip_after_viewbox_edit")
+                bump(res["features"], "clip_after_viewbox_edit." + ("shapes_loaded" if ("shapes" in steps or "bounding_box" in steps) else "no_shapes_loaded"))
+            else:
+                svg = self.SVG.fromstring(pico)
             r = svg.clip_to_viewbox(inplace=inplace)
             out = r.tostring()
             if inplace and r is not svg:
@@ -251,7 +282,7 @@ class D(Driver):
         for k, v in feats.items():
             if k in ("touches_border", "fully_outside", "group_partly_clipped_away"):
                 bump(res["features"], "clipped." + k, v)  # only documents whose clipping returned
-        self._judge_clip_render(res, pico, out, vb, rng, {"kind": "clip", "doc": pico}, "library")
+        self._judge_clip_render(res, pico, out, vb, rng, {"kind": "clip", "doc": pico}, "library-after-viewBox-edit" if hist else "library")
 
     def _judge_clip_render(self, res, pico, out, vb, rng, replay, entry):
         """pico: the unclipped picosvg; out: what claims to be pico clipped to its viewBox."""
